@@ -552,6 +552,15 @@ def c05m(tree, ob):
         ob.violate('bp/agent.py', fv.qual, '{} under {}'.format(src(st), ' and '.join(('' if p else 'not ') + t for (t, p) in (extra or facts))[:100]),
                    'the creation time of an originated bundle stays zero for some bundles (here: when another test also holds): the fragments cut from it are completed one by one afterwards, '
                    'each with its own time -- they exceed the MTU they were cut for and no longer belong to one bundle', st, sure=bool(extra))
+    # the time put in is the clock reading as it is: clamped at the epoch (max(0, ...)) a node whose clock is not set gets "zero"
+    # back and the field is filled again for every fragment
+    fd = FuncView(tree, 'bp/encoding/fields.py', 'DtnTimeField.datetime_to_dtntime')
+    clamps = [c for c in calls_in(fd.func) if call_name(c) in ('max', 'min', 'abs')]
+    if clamps:
+        ob.violate('bp/encoding/fields.py', fd.qual, src(clamps[0])[:60], 'the DTN time of an instant is clamped: a clock before the epoch yields the value that means "no creation time", '
+                   'which is then filled in again for every fragment (each its own identity)', clamps[0], sure=True)
+    else:
+        ob.site('bp/encoding/fields.py', fd.func, 'DTN time is the plain difference to the epoch')
     # ... and the completion comes before the TX chain (where the cutter runs)
     fs = FuncView(tree, 'bp/agent.py', 'Agent.send_bundle')
     calls = method_calls(fs.func, '_apply_primary', 'self')
